@@ -18,7 +18,7 @@ for d in glob.glob(root + '/C*-*'):
         for l in open(f):
             m = re.match(r'\s*(C\d\d) exit=1 violations=\d+ oracle=(\S*)', l)
             if m: note(seed, m.group(1), m.group(2), first=True)
-for log in ['r2quick.log', 'r3quick.log', 'r4quick.log', 'r5quick.log']:
+for log in ['r2quick.log', 'r3quick.log', 'r4quick.log', 'r5quick.log', 'r6quick.log', 'r7quick.log']:
     p = root + '/' + log
     if not os.path.exists(p): continue
     cur = None
@@ -55,7 +55,7 @@ out = ['# Seeded changes and the quick checks that report them', '',
        'Each row is one change written by an independent sub-agent (property text + scratch worktree only), re-verified by',
        '`tools/verify_seed.sh` (applies, repository suite 226/226 with the change, demonstration fails with it and passes without).',
        '"first pass" = reported by the quick tiers as they were when the seed arrived; "now" = after the strengthening the misses prompted',
-       '(oracle of the first violation in brackets). Round 1 = `Cxx-n`, round 2 = `Cxx-r2-n`, round 3 = `Cxx-r3-n`.', '',
+       '(oracle of the first violation in brackets). Round 1 = `Cxx-n`, round k = `Cxx-rk-n` (rounds 6 and 7 together cover the 18 properties once). An exit status other than 1 on the first pass (machinery error, abort) counts as not reported.', '',
        '| seed | file changed | first pass | now |', '|---|---|---|---|']
 missed_first = []; missed_now = []
 for s in seeds:
